@@ -1,10 +1,11 @@
 import Driver.Util
 open Lean Replicat
-namespace Driver
-
+namespace Driver.HLocalFS
 /-- requests `localfs.*` -/
 def handleLocalFS (op : String) (j : Json) : Except String Json := do
   match op with
   | _ => throw s!"unknown op {op}"
 
-end Driver
+end Driver.HLocalFS
+
+def Driver.handleLocalFS := Driver.HLocalFS.handleLocalFS
